@@ -439,7 +439,16 @@ def lazy_part(run, lazy_res, thorough):
     tasks = [(c, 2.0) for c in G.chunks(term, 100)] + [(c, 1.0) for c in G.chunks(hang_sel, 3)]
     mism = 0
     agree = collections.Counter()
-    known = collections.Counter()
+    groups = {}            # (what, pred, real, acyclic) -> [count, shortest source, o, tags, rec]
+
+    def group(what, pred, real, rec, src, o, tags):
+        if run._match_known(tags) is not None:          # the open finding: counted one by one
+            report_bad(run, src, o, tags, f"Lazy.tla program (model: {pred})")
+            return
+        g = groups.setdefault((what, pred, real.split(" ")[0], rec["acyclic"]), [0, src, o, tags, rec, real])
+        g[0] += 1
+        if len(src) < len(g[1]):
+            g[1:] = [src, o, tags, rec, real]
     for part in pmap(lazy_task, tasks):
         for rec, o in part:
             src = L.render(rec["prog"])
@@ -449,27 +458,33 @@ def lazy_part(run, lazy_res, thorough):
             if ok and pred == "ok":
                 want = rec["vals"] if isinstance(rec["vals"], dict) else {}
                 got = L.listing_values(o[5])
-                if {k: v for k, v in want.items()} != got:
+                if want != got:
                     ok = False
                     real = f"ok with values {got} (model: {want})"
             run.add_eval(1)
             run.add_nontrivial(src)
             agree[(pred, ok)] += 1
+            if not ok:
+                mism += 1
             if real not in ("ok", "unrecoverable") and not real.startswith("ok with"):
                 tags = G.shape_tags(src, o[0], o[1])
                 if not rec["acyclic"] and "shape:cyclic-symbol-definition" not in tags:
                     tags.append("shape:cyclic-symbol-definition")
-                known[(pred, real)] += 1
-                report_bad(run, src, o, tags, f"Lazy.tla program (model: {pred})")
-            if not ok:
-                mism += 1
                 if rec["acyclic"]:
-                    report_bad(run, src, o, ["shape:acyclic-definitions", "outcome:" + real.split(" ")[0]],
-                               f"acyclic program: the model (denotational value) says {pred} {rec['vals']}, the assembler gives {real}")
-                else:
-                    run.bump("lazy_model_drift_on_cyclic_programs")
-                    if len(run.not_exercised) < 12:
-                        run.not_exercised.append(f"model prediction {pred} for {src!r} not met by the real assembler ({real}): Lazy.tla out of date for cyclic programs")
+                    tags.append("shape:acyclic-definitions")
+                group("bad run", pred, real, rec, src, o, tags)
+            elif not ok and rec["acyclic"]:
+                group("wrong result", pred, real, rec, src, o, ["shape:acyclic-definitions", "outcome:" + real.split(" ")[0]])
+            elif not ok:
+                run.bump("lazy_model_drift_on_cyclic_programs")
+                if len(run.not_exercised) < 12:
+                    run.not_exercised.append(f"model prediction {pred} for {src!r} not met by the real assembler ({real}): Lazy.tla out of date for cyclic programs")
+    for (what, pred, realc, acyclic), (cnt, src, o, tags, rec, real) in groups.items():
+        if what == "bad run":
+            report_bad(run, src, o, tags, f"Lazy.tla program ({cnt} programs of this kind; model: {pred})", {"count": cnt, "model": pred})
+        else:
+            report_bad(run, src, o, tags, f"acyclic program ({cnt} of this kind): the language (Den in Lazy.tla) says {pred} {rec['vals']}, the assembler gives {real}",
+                       {"count": cnt, "model": pred, "model_values": rec["vals"]})
     run.note("lazy_replay_agreement", {f"{k[0]}/{'agree' if k[1] else 'DISAGREE'}": v for k, v in agree.items()})
     run.note("lazy_replay_mismatches", mism)
     t_ok = [r for r in term if r["outcome"] == "ok" and r["acyclic"] and len(r["prog"]) >= 3]
